@@ -53,7 +53,7 @@ def stress_scripts(pid, thorough):
         return []
     out = []
     base = [{"op": "srv", "msg": {"t": "salts", "list": [[0, 5200, 104], [0, 2000, 103]]}}]
-    for r in range(150 if thorough else 30):
+    for r in range(1000 if thorough else 200):   # the known race took about 1 retry in 1000; three retries per script
         steps = list(base)
         for k in (1, 2, 3):
             steps += [{"op": "invoke", "k": k}, {"op": "spam", "on": True},
